@@ -333,8 +333,27 @@ pub fn run_main(
             })
             .collect()
     };
+    // circuit breaker: every `blocked` case costs a whole watchdog period; once 25 cases of a run have
+    // blocked (on an unchanged tree at most a handful do, in the regions of the known deadlock findings)
+    // the remaining cases are not executed but reported as `skipped:too-many-blocked`, which the model
+    // side can never agree with — the run ends in minutes instead of hours and is still reported
+    // (components whose unchanged-tree runs contain known deadlocks — F17/F18 — are exempt)
+    let max_blocked = match component {
+        "loopcycle" | "probe" | "term" | "e2e" | "loops" | "statelock" | "chansrc" => usize::MAX,
+        _ => 25,
+    };
+    let mut blocked = 0usize;
     for (id, case) in cases {
-        let res = guarded(&exec, &case);
+        let res = if blocked >= max_blocked {
+            vec!["skipped:too-many-blocked".to_string()]
+        } else {
+            guarded(&exec, &case)
+        };
+        // only the whole-case watchdog outcome counts (a single line `blocked`); components that report
+        // `blocked` as a legitimate per-operation answer (statelock) are not affected
+        if res.len() == 1 && res[0] == "blocked" {
+            blocked += 1;
+        }
         writeln!(out, "case {id} {}", case.header.join(" ")).unwrap();
         for op in &case.ops {
             writeln!(out, "{}", op.join(" ")).unwrap();
